@@ -22,10 +22,17 @@ def one(d):
         if a.returncode != 0:
             return name, prop, "PATCH-DOES-NOT-APPLY", ""
         env = dict(os.environ, PYTHONPATH=w + "/src")
-        if name.startswith("C15"):
-            env["C15_PREBUILT"] = "/repo/build/lib.linux-x86_64-cpython-312/pyModeS"
+        demo = os.path.join(d, "demo.py")
+        if name.startswith("C15") and PLAIN:
+            import shutil
+            so = [f for f in os.listdir(PLAIN) if f.endswith(".so")][0]
+            os.makedirs(os.path.join(w, "prebuilt"), exist_ok=True)
+            shutil.copy(os.path.join(PLAIN, so), os.path.join(w, "prebuilt", so))
+            shutil.copy(demo, os.path.join(w, "demo_c15.py"))
+            demo = os.path.join(w, "demo_c15.py")
+            env["C15_PREBUILT"] = os.path.join(w, "prebuilt", so)
         t = subprocess.run(["/venv/bin/python", "-m", "pytest", "-q", "-x", "-p", "no:cacheprovider", "tests"], cwd=w, env=env, capture_output=True, text=True)
-        dm = subprocess.run(["/venv/bin/python", os.path.join(d, "demo.py")], cwd=w, env=env, capture_output=True, text=True, timeout=600)
+        dm = subprocess.run(["/venv/bin/python", demo], cwd=w, env=env, capture_output=True, text=True, timeout=600)
         r = subprocess.run(["/verif/check", prop, "--tier", tier], env=dict(os.environ, PMV_REPO=w, PMV_JOBS="6"), capture_output=True, text=True, cwd="/verif")
         keys = [l.split("key=")[1].split()[0] for l in r.stdout.splitlines() if l.startswith("VIOLATION") and "key=" in l]
         status = ("CAUGHT" if r.returncode == 1 else "MISSED(exit %d)" % r.returncode)
@@ -34,14 +41,35 @@ def one(d):
         subprocess.run(["git", "-C", "/repo", "worktree", "remove", "--force", w], capture_output=True)
 
 
+def plain_c_twin():
+    """a non-sanitised build of the current C twin for the C15 demos (they load it through C15_PREBUILT)"""
+    sys.path.insert(0, "/verif")
+    from pmv import cbuild
+    import sysconfig
+    src, origin = cbuild.source()
+    if src is None:
+        return None
+    d = tempfile.mkdtemp(prefix="pmvc15-")
+    open(os.path.join(d, "c.c"), "w").write(src)
+    so = os.path.join(d, "c_common" + sysconfig.get_config_var("EXT_SUFFIX"))
+    r = subprocess.run(["clang", "-O1", "-shared", "-fPIC", "-Wno-everything", "-I", sysconfig.get_paths()["include"], os.path.join(d, "c.c"), "-o", so],
+                       capture_output=True)
+    os.remove(os.path.join(d, "c.c"))
+    return d if r.returncode == 0 else None
+
+
 ds = sorted(glob.glob("/verif/seeded/*"))
 if args:
     ds = [d for d in ds if any(a in d for a in args)]
+PLAIN = plain_c_twin() if any(os.path.basename(d).startswith("C15") for d in ds) else None
 bad = 0
 with cf.ThreadPoolExecutor(max_workers=3) as ex:
     for name, prop, st, keys in ex.map(one, ds):
         if not st.startswith("CAUGHT"):
             bad += 1
         print("%-48s %-4s %-40s %s" % (name, prop, st, keys))
+if PLAIN:
+    import shutil
+    shutil.rmtree(PLAIN, ignore_errors=True)
 print("seeded changes: %d, not caught: %d" % (len(ds), bad))
 sys.exit(1 if bad else 0)
